@@ -9,6 +9,7 @@ import AeicProofs.RealInst
 import AeicProofs.Lemmas.C02Container
 import AeicProofs.Lemmas.C02Flight
 import AeicProofs.Lemmas.C02Interp
+import AeicProofs.Lemmas.KernelBridge2
 
 namespace C02
 open Aeic Aeic.Builder Aeic.Container
@@ -400,5 +401,50 @@ theorem resample_linear (nan : ℝ) (t f : List ℝ) (ht : t.Pairwise (· ≤ ·
 
 example : interp1 (0:ℝ) [0, 10, 10, 20] [1, 2, 2, 4] 15 = 3 := by
   simp [interp1, interpAux]; norm_num
+
+
+/-! ## Source tie: the altitude schedule and the starting mass as regenerated from `trajectories/builders/legacy.py`
+    by the symbolic translator (`Aeic.Kern.legacy_*`) -/
+
+open KernelBridge2 in
+/-- whenever the mission is accepted, the five values `LegacyContext.__init__` assigns are the model's schedule -/
+theorem src_schedule_is_model (o d m : ℝ) (s : Sched ℝ) (h : schedule o d m = .ok s) :
+    Kern.legacy_clm_start_altitude (schedEnv o d m) = s.clmStart ∧ Kern.legacy_crz_start_altitude (schedEnv o d m) = s.crzStart ∧
+    Kern.legacy_des_start_altitude (schedEnv o d m) = s.desStart ∧ Kern.legacy_des_end_altitude (schedEnv o d m) = s.desEnd ∧
+    Kern.legacy_descent_dist_approx (schedEnv o d m) = s.descentDist := legacy_schedule o d m s h
+
+open KernelBridge2 in
+/-- the climb of the source text starts 3000 ft above the origin, or at the origin's elevation when that reaches the ceiling; the
+    descent ends 3000 ft above the destination, clamped to the ceiling; the cruise level never exceeds the ceiling and descent
+    starts at the cruise level — for EVERY origin / destination elevation and ceiling -/
+theorem src_schedule_clamps (o d m : ℝ) :
+    Kern.legacy_clm_start_altitude (schedEnv o d m) = (if m ≤ o + 3000 * 0.3048 then o else o + 3000 * 0.3048) ∧
+    Kern.legacy_des_end_altitude (schedEnv o d m) = (if m ≤ d + 3000 * 0.3048 then m else d + 3000 * 0.3048) ∧
+    Kern.legacy_crz_start_altitude (schedEnv o d m) ≤ m ∧
+    Kern.legacy_des_start_altitude (schedEnv o d m) = Kern.legacy_crz_start_altitude (schedEnv o d m) := by
+  obtain ⟨e1, e2, e3⟩ := schedEnv_eval o d m
+  have hf : (Gen.FEET_TO_METERS : ℝ) = 0.3048 := by simp only [Gen.FEET_TO_METERS, lit_real]; norm_num
+  refine ⟨?_, ?_, ?_, ?_⟩
+  · simp only [Kern.legacy_clm_start_altitude, e1, e3, hf, lit_real]; norm_num
+  · simp only [Kern.legacy_des_end_altitude, e2, e3, hf, lit_real]; norm_num
+  · simp only [Kern.legacy_crz_start_altitude, e1, e3]
+    split_ifs <;> linarith
+  · simp only [Kern.legacy_des_start_altitude, Kern.legacy_crz_start_altitude]
+
+open KernelBridge2 in
+/-- the starting mass of the source text never exceeds the maximum take-off mass (the MTOM clamp), whatever the performance -/
+theorem src_starting_mass_le_mtom (ac : Aircraft ℝ) (total lf : ℝ) (p : Perf ℝ) :
+    Kern.legacy_starting_mass (massEnv ac total lf p) ≤ ac.maxMass := by
+  obtain ⟨e1, e2, e3, e4, e5, e6, e7⟩ := massEnv_eval ac total lf p
+  simp only [Kern.legacy_starting_mass, e1, e2, e3, e4, e5, e6, e7]
+  split_ifs <;> linarith
+
+open KernelBridge2 in
+/-- … and it is the model's `calcStartingMass` (trip fuel included) -/
+theorem src_starting_mass_is_model (perf : PerfFn ℝ) (ac : Aircraft ℝ) (total lf crz : ℝ) (p : Perf ℝ)
+    (hp : perf .cruise crz ac.maxMass = .ok p) :
+    calcStartingMass perf ac total lf crz =
+      .ok (Kern.legacy_starting_mass (massEnv ac total lf p), Kern.legacy_total_fuel_mass (massEnv ac total lf p)) :=
+  legacy_starting_mass perf ac total lf crz p hp
 
 end C02
